@@ -91,3 +91,78 @@ Definition canon_file (f : list N) : res (list (N * N * bool)) :=
       Ok (outer ++ flat_map (fun p : pack_ref => canon_pack f n (fst (snd p)) (snd (snd p))) packs)
   end.
 Close Scope N_scope.
+
+(* ---- entry-store tails: the property descriptors ---- *)
+Open Scope N_scope.
+(* the serialisation of a descriptor as the reader model understands it (inverse of Layout.p_rawprop) *)
+Definition ser_rawprop (p : rawprop) : option (list N) :=
+  let name := N.of_nat (length (rp_name p)) :: rp_name p in
+  match rp_kind p with
+  | KPadding => if (rp_size p =? 0)%nat then None else Some [N.of_nat (rp_size p) - 1]
+  | Layout.KContent ps cs None => Some ((16 + (N.of_nat cs - 1) + (if (ps =? 2)%nat then 4 else 0)) :: name)
+  | Layout.KContent ps cs (Some d) => Some ((16 + 8 + (N.of_nat cs - 1) + (if (ps =? 2)%nat then 4 else 0)) :: le_enc ps d ++ name)
+  | KUInt sz None => Some ((32 + (N.of_nat sz - 1)) :: name)
+  | KUInt sz (Some d) => Some ((32 + 8 + (N.of_nat sz - 1)) :: le_enc sz d ++ name)
+  | KSInt sz None => Some ((48 + (N.of_nat sz - 1)) :: name)
+  | KSInt sz (Some d) => Some ((48 + 8 + (N.of_nat sz - 1)) :: le_enc sz (strunc sz d) ++ name)
+  | KArray ls fixed dep dflt =>
+      let lsn := match ls with Some n => N.of_nat n | None => 0 end in
+      let ks := match dep with Some (k, _) => k | None => 0%nat end in
+      let depb := match dep with Some (_, si) => [si] | None => [] end in
+      match dflt with
+      | None => Some ((80 + lsn) :: (32 * N.of_nat ks + N.of_nat fixed) :: depb ++ name)
+      | Some (sz, base, kid) =>
+          match ls with
+          | None => None
+          | Some n => Some ((80 + 8 + lsn) :: (32 * N.of_nat ks + N.of_nat fixed) :: depb ++ le_enc n sz ++ base ++
+                            (match kid with Some k => le_enc ks k | None => [] end) ++ name)
+          end
+      end
+  | KVariantId => Some (128 :: name)
+  end.
+
+Fixpoint ser_rawprops (ps : list rawprop) : option (list N) :=
+  match ps with
+  | [] => Some []
+  | p :: ps => match ser_rawprop p, ser_rawprops ps with Some a, Some b => Some (a ++ b) | _, _ => None end
+  end.
+
+(* the tail of an entry store: 9 bytes of fixed fields, then [pcount] descriptors *)
+Definition canon_layout_tail (b : list N) : bool :=
+  match (fun l => '(kind, l) <- p_u 1 l ;; '(count, l) <- p_u 4 l ;; '(flag, l) <- p_u 1 l ;; '(esize, l) <- p_u 2 l ;;
+                  '(vcount, l) <- p_u 1 l ;; '(pcount, l) <- p_u 1 l ;;
+                  '(raw, l) <- p_many (N.to_nat pcount) p_rawprop l ;; Ok (raw, l)) b with
+  | Ok (raw, []) =>
+      match ser_rawprops raw with
+      | Some d => list_eqb (firstn 10 b ++ d) b
+      | None => false
+      end
+  | _ => false
+  end.
+
+(* code 11: entry store tail (layout descriptors) of every entry store of a directory pack *)
+Definition canon_dir_layouts (f : list N) (n : N) (pos : N) : list (N * N * bool) :=
+  match run_n n f (dp_open_p pos) with
+  | Ok d =>
+      map (fun i =>
+             match p_sized_offset (subN (8 * i) 8 (dp_eptrs d)) with
+             | Ok (so, _) => (11, pos + so_off so,
+                              match read_block_n n f (pos + so_off so) (so_size so) with Ok b => canon_layout_tail b | Err _ => false end)
+             | Err _ => (11, i, false)
+             end) (DirModel.nseq 0 (N.to_nat (N.min (dh_entry_count (dp_dh d)) 4096)))
+  | Err _ => []
+  end.
+
+Definition canon_file_full (f : list N) : res (list (N * N * bool)) :=
+  match canon_file f, open_as_container f with
+  | Ok rs, Ok packs =>
+      let n := lenN f in
+      Ok (rs ++ flat_map (fun p : pack_ref =>
+                            match run_n n f (read_header_p (fst (snd p))) with
+                            | Ok h => if kind_eqb (ph_kind h) Structs.KDirectory then canon_dir_layouts f n (fst (snd p)) else []
+                            | Err _ => []
+                            end) packs)
+  | Err e, _ => Err e
+  | _, Err e => Err e
+  end.
+Close Scope N_scope.
